@@ -1,5 +1,5 @@
 """Registry: unit id -> (builder, properties served); property id -> info for the evidence file."""
-from . import u01_results, u05_arith_eval, u06_arith_literal, u20_spans, u04a_while, u04e_andor, u04d_if, u04c_arithfor, u04g_list, u04h_program
+from . import u01_results, u05_arith_eval, u06_arith_literal, u20_spans, u04a_while, u04e_andor, u04d_if, u04c_arithfor, u04g_list, u04h_program, u04f_case
 
 UNITS = {
     'U1': (u01_results.build, u01_results.PROPS),
@@ -7,6 +7,7 @@ UNITS = {
     'U4c': (u04c_arithfor.build, u04c_arithfor.PROPS),
     'U4d': (u04d_if.build, u04d_if.PROPS),
     'U4e': (u04e_andor.build, u04e_andor.PROPS),
+    'U4f': (u04f_case.build, u04f_case.PROPS),
     'U4g': (u04g_list.build, u04g_list.PROPS),
     'U4h': (u04h_program.build, u04h_program.PROPS),
     'U5': (u05_arith_eval.build, u05_arith_eval.PROPS),
